@@ -20,7 +20,7 @@ TECH = {
     'C12': 'Hypothesis PBT with a metamorphic mirror relation (lsb0 op == reverse(msb0 op on reversed operands)) + toggle histories',
     'C13': 'Hypothesis PBT: equality/hash contract against the (len, bits) model over classes, routes and operand kinds',
     'C14': 'Hypothesis model-based stateful testing of Array against a (python list, encoder, trailing bits) model',
-    'C15': 'Hypothesis PBT against a total accept/reject classifier with boundary-biased generators',
+    'C15': 'Hypothesis PBT against a total accept/reject classifier with boundary-biased generators + enumerated grids (integer limits, object lengths)',
     'C16': 'Hypothesis PBT + exhaustive small-world enumeration against Python int arithmetic; algebraic laws',
     'C17': 'Hypothesis PBT: round-trip and differential against int.to_bytes over windows, real files and chunk boundaries',
     'C18': 'Hypothesis PBT: differential against struct/array from the standard library; byteswap involution',
@@ -43,9 +43,9 @@ LEVEL_TEXT = {
     'C12': 'Exploration with a metamorphic mirror oracle computed on the independent str models (lsb0 result == reverse(msb0 model on reversed operands)), mode-independent observables, and option toggle histories.',
     'C13': 'Exploration: == / != / hash against equality of (len, bits) over classes, 26 routes (shared source files, in-place flips), lengths around the 2000-bit hash threshold, promotable and non-promotable operands.',
     'C14': 'Exploration over Array histories against a (list of item encodings, trailing bits, dtype) model with independent codecs; element-wise operators against the Python operator mapped over the items with the documented promotion.',
-    'C15': 'Complete grid (every integer dtype x width 1..130 x eight values around both limits; all 17 routes in thorough) plus exploration against a total accept/reject classifier: illegal lengths, invalid digits, source windows, preludes that use the same value with related dtypes first; rejected assignments must leave the target unchanged.',
+    'C15': 'Complete grid (every integer dtype x width 1..130 x eight values around both limits; all 17 routes in thorough) plus exploration against a total accept/reject classifier: illegal lengths, invalid digits, source windows, preludes that use the same value with related dtypes first, bare-name property assignment at every object length 0..136; rejected assignments must leave the target unchanged.',
     'C16': 'Exploration + complete small world: bitwise operators and shifts against Python int arithmetic, algebraic laws, error cases, operand immutability, shift counts up to 2^100.',
-    'C17': 'Exploration + enumerated chunk-boundary sizes (hook) + the real 100 MiB chunk boundary: bytes written/returned vs int.to_bytes, read-back windows vs the selected source bits.',
+    'C17': 'Exploration + enumerated chunk-boundary sizes (hook) + the real 100 MiB chunk boundary + Array.tofile of 1-16 MiB with item sizes that divide no block: bytes written/returned vs int.to_bytes, read-back windows vs the selected source bits.',
     'C18': 'Exploration, differential against struct and array from the standard library; endian relations by byte reversal; struct records swapped with their own format (string / counts / size list, behind a header, once or repeated); byteswap involution.',
     'C19': 'Every length 0..1100 (2100 in thorough) x 4 classes, plus exploration over 14 construction routes: printed text is parsed back (Bits(str), eval(repr), digits of pp lines) and checked against layout predicates, in both bit numbering modes and colour settings.',
     'C20': 'Exploration (API fuzzing with typed adversarial arguments in histories): exception-class oracle plus validity of every involved object and of the module options; two known findings (segfaults inside the third-party bitarray extension for del and int-assignment with slice steps beyond 2**63-2) excluded by construction and counted; a worker killed by a signal is turned into a minimised violation by re-running its traced case in a child process.',
